@@ -1,9 +1,5 @@
-import Gofasta.Gen.Cols
+import Gofasta.Gen.ColsClosest
 import Gofasta.Model.Closest
-import Gofasta.Model.Snps
-import Gofasta.Model.Updown
-import Gofasta.Model.Sam
-import Gofasta.Model.Variants
 /-
 The per-column code of the comparison loops, regenerated from the Go source on every run by the go/ast translator
 `cols.go` (harness) into `Gen/Cols.lean`: for `rawDistance`, `snpDistance`, `tn93Distance` the whole loop body as a
@@ -66,61 +62,13 @@ theorem tnCounts_cons (q t : Nat) (qs ts : List Nat) :
     · simp [h, h2, r]
     · simp [h, h2, r]
 
-/-- the conditions under which a column is reported as a mutation -/
-theorem snps_append (r q : Nat) : snps_getSNPs r q = [encDiffer r q] := by
-  simp [snps_getSNPs, encDiffer]
-theorem updown_append (r q : Nat) : input_getLines r q = [encResolved q && encDiffer r q] := by
-  simp [input_getLines, encDiffer, encResolved]
-theorem nucs_append (r q : Nat) : pairwise_getNucsPair r q = [encDiffer r q] := by
-  simp [pairwise_getNucsPair, encDiffer]
-/-- getAAsPair skips a column whose reference code is the gap (244) - an insertion relative to the reference; the model
-walks reference positions, whose columns never hold a reference gap -/
-theorem aas_append (r q : Nat) : pairwise_getAAsPair r q = [!(r == 244) && encDiffer q r] := by
-  simp [pairwise_getAAsPair, encDiffer]
 /-- the three places where findClosest rebuilds the SNP list use the same test -/
 theorem closest_append (q t : Nat) : closest_findClosest q t = [encDiffer q t, encDiffer q t, encDiffer q t] := by
   simp [closest_findClosest, encDiffer]
 
-/-- the model's SNP rows use exactly these tests (unfolding one column) -/
-theorem snpsRowEnc_cons (i r q : Nat) (rs qs : List Nat) :
-    snpsRowEnc i (r :: rs) (q :: qs) =
-      (if (snps_getSNPs r q).getD 0 false then [(i + 1, dec r, dec q)] else []) ++ snpsRowEnc (i + 1) rs qs := by
-  rw [snps_append]; simp only [snpsRowEnc, List.getD_cons_zero]
-  by_cases h : encDiffer r q = true <;> simp [h]
-
-/-- `sam.checkArgs` (the window check of toMultiAlign and toPairAlign), translated statement by statement from the source:
-it refuses exactly the windows the model refuses and otherwise returns the model's (start, end, trim) -/
-theorem checkArgs_translated (L : Nat) (s e : Int) :
-    sam_checkArgs (L : Int) s e = (Model.checkArgs L s e).map fun r => ((r.1 : Int), (r.2.1 : Int), r.2.2) := by
-  unfold sam_checkArgs Model.checkArgs
-  by_cases hs : s = -1 <;> by_cases he : e = -1 <;> simp only [hs, he, decide_true, decide_false, if_true, if_false,
-    Bool.false_eq_true, bne_self_eq_false, Bool.or_false, Bool.false_or]
-  all_goals (repeat' split) <;> simp_all <;> omega
-
-
-/-- the window filter of `variants.WriteVariants` (which records of a row are printed under start / end), translated from
-the source: the model's `inWindow` -/
-theorem window_filter (start stop : Int) (v : Variant) :
-    variants_WriteVariants start stop v.pos = [inWindow start stop v] := by
-  simp [variants_WriteVariants, inWindow]
-
-/-- the aggregating writer skips exactly the records outside the window -/
-theorem agg_window_filter (start stop : Int) (v : Variant) :
-    variants_AggregateWriteVariants start stop v.pos = [!inWindow start stop v] := by
-  simp [variants_AggregateWriteVariants, inWindow]
-
-/-- which SAM records the two readers skip (unmapped: bit 4; secondary: bit 256), translated from the source: the model's
-`isSkipped` on the record's flag, for every flag value -/
-theorem sam_skip (r : SamRec) :
-    (sam_groupSamRecords r.flag).any id = isSkipped r ∧ (indels_getSamRecords r.flag).any id = isSkipped r := by
-  have h2 : ∀ n : Nat, (n >>> 2) &&& 1 = (n / 4) % 2 := by
-    intro n; rw [Nat.shiftRight_eq_div_pow, Nat.and_one_is_mod]
-  have h8 : ∀ n : Nat, (n >>> 8) &&& 1 = (n / 256) % 2 := by
-    intro n; rw [Nat.shiftRight_eq_div_pow, Nat.and_one_is_mod]
-  simp [sam_groupSamRecords, indels_getSamRecords, isSkipped, h2, h8]
-
 /-- not vacuous: the two classes of column that the tests separate -/
 example : closest_rawDistance 136 72 = [1, 1] ∧ closest_rawDistance 136 136 = [0, 1] ∧ closest_rawDistance 136 240 = [0, 0] := by decide
 example : closest_tn93Distance 136 72 = [1, 0, 1, 1] ∧ closest_tn93Distance 40 24 = [0, 1, 1, 1] ∧ closest_tn93Distance 136 24 = [0, 0, 1, 1] := by decide
+
 
 end Gofasta.Props.Cols
